@@ -14,6 +14,15 @@ echo "---- files in .seed:"; ls "$SRC/.seed"
 # place demo files where the agent had them (relative paths of untracked files in its worktree)
 (cd "$SRC" && git status --porcelain | grep '^??' | awk '{print $2}' | grep -v '^.seed' ) > /tmp/seed-untracked.txt
 while read -r f; do mkdir -p "$W/$(dirname "$f")"; cp -r "$SRC/$f" "$W/$f"; done < /tmp/seed-untracked.txt
+# demo files kept only under .seed/: place them where demo_cmd.txt / README.txt say
+for f in "$SRC"/.seed/*.go; do
+  [ -f "$f" ] || continue
+  b=$(basename "$f")
+  if ! grep -q "$b" /tmp/seed-untracked.txt; then
+    tgt=$(cat "$SRC/.seed/demo_cmd.txt" "$SRC/.seed/README.txt" 2>/dev/null | grep -o "[A-Za-z0-9_./-]*/$b" | grep -v "^\.seed" | grep -v "/\.seed/" | sed "s#^$SRC/##; s#^/tmp/seed-[A-Z0-9]*/##" | grep -v "^/" | head -1)
+    if [ -n "$tgt" ]; then mkdir -p "$W/$(dirname "$tgt")"; cp "$f" "$W/$tgt"; echo "$tgt" >> /tmp/seed-untracked.txt; fi
+  fi
+done
 echo "---- demo files: $(cat /tmp/seed-untracked.txt | tr '\n' ' ')"
 DEMO=$(grep -o "go test[^'\"]*\(-run [^ ]* \)\?.*" "$SRC/.seed/demo_cmd.txt" | head -1)
 echo "---- demo command: $DEMO"
